@@ -1,5 +1,5 @@
-(* C03 -- the computable guard analysis.  [an opt p cx a] over-approximates, for EVERY world of
-   the fault model, what script [p] can do when started in abstract state [a]:
+(* C03 -- the computable guard analysis.  [an opt p cx A] over-approximates, for EVERY world of
+   the fault model, what script [p] can do when started in one of the abstract states [A]:
    a = (gone?, oneshot cache active?), result = how p ends (normally / return / raising class x)
    and in which abstract state.  [opt l] says whether access l may fail with ENOENT/ESRCH (and EINVAL)
    even while the process is alive (an optional or racing file); every other per-process access can,
@@ -7,110 +7,123 @@
 From PV Require Import Base.Prelude C03.Model.
 Local Open Scope list_scope.
 
-Definition astate := (bool * bool)%type.
+(* abstract state: is the object's process gone / is the oneshot cache active / is the OTHER process in focus
+   (the current entry: a child, the parent, a listed pid) gone *)
+Definition astate := (bool * bool * bool)%type.
+Definition ag (a : astate) : bool := fst (fst a).
+Definition ac (a : astate) : bool := snd (fst a).
+Definition ao (a : astate) : bool := snd a.
 Inductive asig := ANormal | AReturn | ARaise (x : xc).
 Definition ares := list (asig * astate).
 
 Definition who_eq_dec : forall a b : who, {a = b} + {a <> b}. Proof. decide equality. Defined.
 Definition xc_eq_dec : forall a b : xc, {a = b} + {a <> b}. Proof. decide equality; apply who_eq_dec. Defined.
 Definition asig_eq_dec : forall a b : asig, {a = b} + {a <> b}. Proof. decide equality; apply xc_eq_dec. Defined.
+Definition ast_eq_dec : forall a b : astate, {a = b} + {a <> b}.
+Proof. decide equality. apply Bool.bool_dec. decide equality; apply Bool.bool_dec. Defined.
 Definition ar_eq_dec : forall a b : asig * astate, {a = b} + {a <> b}.
-Proof. decide equality. decide equality; apply Bool.bool_dec. apply asig_eq_dec. Defined.
+Proof. decide equality. apply ast_eq_dec. apply asig_eq_dec. Defined.
 Definition dd (l : ares) : ares := nodup ar_eq_dec l.
 
 Definition vx (k : akind) : xc := xc_of (vanish_errno k).
+(* a process that is gone stays gone; one that is there may be gone after the next access *)
 Definition gs (g : bool) : list bool := if g then [true] else [false; true].
-
-Definition acc_self (o : oclass) (k : akind) (a : astate) : ares :=
-  let (g, c) := a in
-  if g then [(ARaise (vx k), (true, c))]
-  else [(ANormal, (false, c)); (ARaise XPerm, (false, c)); (ARaise (vx k), (true, c))]
-       ++ match o with
-          | Strict => []
-          | MayVanish => [(ARaise XFnf, (false, c)); (ARaise XEsrch, (false, c))]
-          | MayVanishOrInval => [(ARaise XFnf, (false, c)); (ARaise XEsrch, (false, c)); (ARaise XOsOther, (false, c))]
-          end.
-Definition acc_other (o : oclass) (a : astate) : ares :=
-  let (g, c) := a in
-  flat_map (fun g' => [(ANormal, (g', c)); (ARaise XPerm, (g', c))]
-                      ++ match o with
-                         | Strict => []
-                         | MayVanish => [(ARaise XFnf, (g', c)); (ARaise XEsrch, (g', c))]
-                         | MayVanishOrInval => [(ARaise XFnf, (g', c)); (ARaise XEsrch, (g', c)); (ARaise XOsOther, (g', c))]
-                         end) (gs g).
-Definition acc_global (a : astate) : ares :=
-  let (g, c) := a in map (fun g' => (ANormal, (g', c))) (gs g).
-(* abstract states a loop iteration can start in *)
+Definition extras (o : oclass) : list xc :=
+  match o with Strict => [] | MayVanish => [XFnf; XEsrch] | MayVanishOrInval => [XFnf; XEsrch; XOsOther] end.
+Definition live_sigs (o : oclass) : list asig := ANormal :: ARaise XPerm :: map ARaise (extras o).
+(* whose disappearance makes the access fail *)
+Inductive fail_by := ByG | ByO | ByNone.
+Definition failed (fb : fail_by) (g' o' : bool) : bool := match fb with ByG => g' | ByO => o' | ByNone => false end.
+Definition acc_gen (fb : fail_by) (sigs : list asig) (k : akind) (a : astate) : ares :=
+  flat_map (fun g' => flat_map (fun o' =>
+      map (fun sg => (sg, (g', ac a, o'))) (if failed fb g' o' then [ARaise (vx k)] else sigs))
+    (gs (ao a))) (gs (ag a)).
+Definition acc_who (x : who) (o : oclass) (k : akind) (a : astate) : ares :=
+  match x with
+  | Self => acc_gen ByG (live_sigs o) k a
+  | Other => acc_gen ByO (live_sigs o) k a
+  | Ext => acc_gen ByNone (live_sigs o) k a
+  | Global => acc_gen ByNone [ANormal] k a
+  | Any => acc_gen ByO (live_sigs o) k a
+  end.
+(* abstract states a loop iteration can start in: the object's process stays gone once gone; the cache flag and
+   the process in focus (it changes with the entry) are not tracked across iterations *)
+Definition bools := [false; true].
 Definition reach (a : astate) : list astate :=
-  flat_map (fun g' => [(g', false); (g', true)]) (gs (fst a)).
+  flat_map (fun g' => flat_map (fun c' => map (fun o' => (g', c', o')) bools) bools) (gs (ag a)).
 Definition nonnormal (r : asig * astate) : bool := match fst r with ANormal => false | _ => true end.
+Definition isret (r : asig * astate) : bool := match fst r with AReturn => true | _ => false end.
+Definition dds (l : list astate) : list astate := nodup ast_eq_dec l.
+Definition reachS (A : list astate) : list astate := dds (flat_map reach A).
+(* the states in which a result set continues normally / raises class x *)
+Definition normals (r : ares) : list astate :=
+  dds (flat_map (fun y => match y with (ANormal, a) => [a] | _ => [] end) r).
+Definition raised (x : xc) (r : ares) : list astate :=
+  dds (flat_map (fun y => match y with (ARaise x', a) => if xc_eq_dec x x' then [a] else [] | _ => [] end) r).
+Definition all_who : list who := [Self; Other; Global; Any; Ext].
+Definition all_xc : list xc :=
+  [XFnf; XEsrch; XPerm; XOsOther; XTimeout; XPy] ++ map XNSP all_who ++ map XZombie all_who ++ map XAD all_who.
+Definition tag (sg : asig) (A : list astate) : ares := map (fun a => (sg, a)) A.
 
-Fixpoint an (opt : label -> oclass) (p : prog) (cx : xc) (a : astate) {struct p} : ares :=
+(* the analysis works on SETS of entry states (so that a sequence is analysed once, not once per state) *)
+Fixpoint an (opt : label -> oclass) (p : prog) (cx : xc) (A : list astate) {struct p} : ares :=
   match p with
-  | Skip | SetFlag _ _ | Collect _ | LoadNames => [(ANormal, a)]
-  | Ret => [(AReturn, a)]
-  | Raise x => [(ARaise x, a)]
-  | Reraise => [(ARaise cx, a)]
-  | Acc l =>
-      match l_who l with
-      | Self => acc_self (opt l) (l_kind l) a
-      | Other => acc_other (opt l) a
-      | Global => acc_global a
-      | Any => acc_self (opt l) (l_kind l) a ++ acc_other (opt l) a
-      end
-  | Seq p q =>
-      dd (flat_map (fun r => match r with (ANormal, a1) => an opt q cx a1 | _ => [r] end) (an opt p cx a))
-  | If (TCur h) p q => if hmatch h cx then an opt p cx a else an opt q cx a
-  | If _ p q => dd (an opt p cx a ++ an opt q cx a)
+  | Skip | SetFlag _ _ | Collect | LoadKids => tag ANormal A
+  | Ret => tag AReturn A
+  | Raise x => tag (ARaise x) A
+  | Reraise => tag (ARaise cx) A
+  | Acc l => dd (flat_map (acc_who (l_who l) (opt l) (l_kind l)) A)
+  | Seq p q => let R := an opt p cx A in dd (filter nonnormal R ++ an opt q cx (normals R))
+  | If (TCur h) p q => if hmatch h cx then an opt p cx A else an opt q cx A
+  | If _ p q => dd (an opt p cx A ++ an opt q cx A)
   | Try b h e =>
-      dd (flat_map (fun r => match r with
-                             | (ANormal, a1) => an opt e cx a1
-                             | (AReturn, a1) => [r]
-                             | (ARaise x, a1) => an opt h x a1
-                             end) (an opt b cx a))
-  | ForNames b =>
-      dd (map (fun a1 => (ANormal, a1)) (reach a)
-          ++ flat_map (fun a1 => filter nonnormal (an opt b cx a1)) (reach a))
-  | Call p => map (fun r => match r with (AReturn, a1) => (ANormal, a1) | _ => r end) (an opt p cx a)
-  | Memo _ p => (if snd a then [(ANormal, a)] else []) ++ an opt p cx a
-  | CacheOn => [(ANormal, (fst a, true))]
-  | CacheOff => [(ANormal, (fst a, false))]
+      let R := an opt b cx A in
+      dd (filter isret R ++ an opt e cx (normals R)
+          ++ flat_map (fun x => match raised x R with [] => [] | a0 :: S0 => an opt h x (a0 :: S0) end) all_xc)
+  | ForNames b | Walk b =>
+      let R := reachS A in dd (tag ANormal R ++ filter nonnormal (an opt b cx R))
+  | Call p => map (fun r => match r with (AReturn, a1) => (ANormal, a1) | _ => r end) (an opt p cx A)
+  | Memo _ p => tag ANormal (filter ac A) ++ an opt p cx A
+  | CacheOn => map (fun a => (ANormal, (ag a, true, ao a))) A
+  | CacheOff => map (fun a => (ANormal, (ag a, false, ao a))) A
+  | FocusParent => flat_map (fun a => map (fun o' => (ANormal, (ag a, ac a, o'))) bools) A
   end.
 
 (* ---- the guard predicates (what the property allows, read off the abstract results) *)
-(* a call made outside oneshot on a process that may be alive or gone: it may only end with a value or
-   with NoSuchProcess(own pid) -- and then the process is gone --, ZombieProcess(own pid), AccessDenied(own pid) *)
+(* entry states of a call made outside oneshot: the process may be there or gone; so may the one in focus *)
+Definition entries : list astate := [(false, false, false); (false, false, true); (true, false, false); (true, false, true)].
+Definition gone_entries : list astate := [(true, false, false); (true, false, true)].
+Definition all_ends (ok : asig * astate -> bool) (es : list astate) (opt : label -> oclass) (p : prog) : bool :=
+  forallb ok (an opt p XPy es).
+(* the call may only end with a value or with NoSuchProcess(own pid) -- and then the process is gone --,
+   ZombieProcess(own pid), AccessDenied(own pid) *)
 Definition ok_end (r : asig * astate) : bool :=
   match r with
   | (ANormal, _) | (AReturn, _) => true
-  | (ARaise (XNSP Self), (g, _)) => g
+  | (ARaise (XNSP Self), a) => ag a
   | (ARaise (XZombie Self), _) | (ARaise (XAD Self), _) => true
   | _ => false
   end.
-Definition well_guarded (opt : label -> oclass) (p : prog) : bool :=
-  forallb ok_end (an opt p XPy (false, false)) && forallb ok_end (an opt p XPy (true, false)).
-(* weaker: psutil errors only, NoSuchProcess also tolerated for a process that is still there *)
-Definition ok_end_weak (r : asig * astate) : bool :=
-  match r with
-  | (ANormal, _) | (AReturn, _) => true
-  | (ARaise (XNSP Self), _) | (ARaise (XZombie Self), _) | (ARaise (XAD Self), _) => true
-  | _ => false
-  end.
-Definition weakly_guarded (opt : label -> oclass) (p : prog) : bool :=
-  forallb ok_end_weak (an opt p XPy (false, false)) && forallb ok_end_weak (an opt p XPy (true, false)).
+Definition well_guarded := all_ends ok_end entries.
 (* once gone: the call can only raise NoSuchProcess(own pid) *)
 Definition only_nsp (r : asig * astate) : bool :=
   match r with (ARaise (XNSP Self), _) => true | _ => false end.
-Definition gone_guarded (opt : label -> oclass) (p : prog) : bool :=
-  forallb only_nsp (an opt p XPy (true, false)).
-
-(* calls that also query OTHER Process objects (parent, parents, children): as [ok_end] for errors carrying the
-   object's own pid; NoSuchProcess / ZombieProcess / AccessDenied carrying the other process's pid are tolerated;
-   bare errors are not *)
+Definition gone_guarded := all_ends only_nsp gone_entries.
+(* once gone: the call answers with a value (is_running, wait) *)
+Definition only_val (r : asig * astate) : bool :=
+  match r with (ANormal, _) | (AReturn, _) => true | _ => false end.
+Definition gone_value := all_ends only_val gone_entries.
+(* calls that also query OTHER Process objects (parent, parents, children, process_iter): as [ok_end] for errors
+   carrying the object's own pid; NoSuchProcess / ZombieProcess / AccessDenied carrying the other process's pid are
+   tolerated; bare errors are not *)
 Definition ok_end_tree (r : asig * astate) : bool :=
   match r with
   | (ARaise (XNSP Other), _) | (ARaise (XZombie Other), _) | (ARaise (XAD Other), _) => true
+  | (ARaise (XNSP Any), _) | (ARaise (XZombie Any), _) | (ARaise (XAD Any), _) => true
   | _ => ok_end r
   end.
-Definition tree_guarded (opt : label -> oclass) (p : prog) : bool :=
-  forallb ok_end_tree (an opt p XPy (false, false)) && forallb ok_end_tree (an opt p XPy (true, false)).
+Definition tree_guarded := all_ends ok_end_tree entries.
+(* wait(timeout): TimeoutExpired is the answer for a process that is still there *)
+Definition ok_end_wait (r : asig * astate) : bool :=
+  match r with (ARaise XTimeout, a) => negb (ag a) | _ => ok_end r end.
+Definition wait_guarded := all_ends ok_end_wait entries.
